@@ -394,6 +394,19 @@ fn build(seed: u64, i: usize) -> Built {
                 s = nodes[*r.pick(&others)].name.clone();
                 shapes.push("unresolvable-include:bare-name-of-a-file-elsewhere");
             }
+        } else if !given_lib_dirs.is_empty() && r.chance(1, 4) {
+            // `../name`: next to the parent of a library directory there is such a file, next
+            // to the parent of the includer there is none; a library never answers to a dot
+            let d = *r.pick(&given_lib_dirs);
+            let parent = match d.rfind('/') {
+                Some(p) => d[..p].to_string(),
+                None => String::new(),
+            };
+            let cands: Vec<usize> = (0..n).filter(|&j| nodes[j].dir == parent).collect();
+            if !cands.is_empty() {
+                s = format!("../{}", nodes[*r.pick(&cands)].name);
+                shapes.push("unresolvable-include:dot-dot-spelling-beside-a-library");
+            }
         } else if !given_lib_dirs.is_empty() && r.chance(1, 3) {
             let d = *r.pick(&given_lib_dirs);
             let in_lib: Vec<usize> = (0..n).filter(|&j| nodes[j].dir == d).collect();
@@ -1055,7 +1068,7 @@ pub fn run(env: &Env) -> i32 {
     {
         let all = ["cycle", "self-include", "diamond", "double-spelling", "symlinked-file", "symlinked-dir", "library-dir", "second-library-dir", "library-file", "via-library-dir", "via-library-file",
                    "library-file-shadowed-by-local-file", "same-name-in-two-directories", "local-candidate-fails-with-other-errno", "unresolvable-include", "unsupported-pragma-in-the-graph", "directory-input",
-                   "included-file-with-another-extension", "unresolvable-include:directory-before-library-file-name", "unresolvable-include:dot-spelling-of-library-name", "unresolvable-include:same-spelling-in-two-files", "unresolvable-include:bare-name-of-a-file-elsewhere", "directory-named-like-a-file-stem", "names-differing-in-case-only", "identical-files-with-relative-includes", "byte-order-mark-in-a-named-file"];
+                   "included-file-with-another-extension", "unresolvable-include:directory-before-library-file-name", "unresolvable-include:dot-spelling-of-library-name", "unresolvable-include:same-spelling-in-two-files", "unresolvable-include:bare-name-of-a-file-elsewhere", "directory-named-like-a-file-stem", "names-differing-in-case-only", "identical-files-with-relative-includes", "byte-order-mark-in-a-named-file", "unresolvable-include:dot-dot-spelling-beside-a-library"];
         let mut probes: Vec<(&str, usize)> = all.iter().map(|k| (*k, shapes.get(k).copied().unwrap_or(0))).collect();
         probes.push(("damaged or unreadable include", results.iter().map(|r| r.faults_fired).sum::<usize>()));
         probes.push(("included-only file that does not parse, judged", results.iter().map(|r| r.syntactic_damage_judged).sum::<usize>()));
